@@ -6,7 +6,6 @@ import (
 	"io"
 	"log"
 
-	"github.com/dim13/cobs"
 	"github.com/simpleiot/simpleiot/test"
 )
 
@@ -96,72 +95,73 @@ func cobsDecodeInplace(b []byte) (int, error) {
 	return iOut, nil
 }
 
+// cobsEncode encodes b to a null-terminated cobs frame. Unlike cobs.Encode
+// it emits the code byte that must follow a full block of 254 non-zero bytes,
+// without which a zero right after such a block is lost by the decoder.
+func cobsEncode(b []byte) []byte {
+	ret := make([]byte, 1, len(b)+len(b)/254+2)
+	iCode := 0
+	code := byte(1)
+
+	for _, bCur := range b {
+		if bCur != 0 {
+			ret = append(ret, bCur)
+			code++
+		}
+
+		if bCur == 0 || code == 0xff {
+			ret[iCode] = code
+			iCode = len(ret)
+			ret = append(ret, 0)
+			code = 1
+		}
+	}
+
+	ret[iCode] = code
+
+	return append(ret, 0)
+}
+
 // Read a COBS encoded data stream. The stream may optionally start with one or more NULL
 // bytes and must end with a NULL byte. This Read blocks until we
 // get an entire packet or an error. b must be large enough to hold the entire packet.
 func (cw *CobsWrapper) Read(b []byte) (int, error) {
-	// we read data until we see a zero or hit the size of the b buffer
-	// current location in read buffer
-	var cur int
-
-	// first, process any leftover bytes looking for packets
-	if cw.readLeftover.Len() > 0 {
-		foundStart := false
-
+	// all received bytes go through readLeftover, so that whatever follows the
+	// end of a packet is kept for the next call no matter how the stream is
+	// split up into device reads
+	for {
+		// skip delimiters in front of the next packet
 		lb := cw.readLeftover.Bytes()
-		for i := 0; i < len(lb); i++ {
-			if !foundStart {
-				if lb[i] == 0 {
-					continue
-				}
-				foundStart = true
+		skip := 0
+		for skip < len(lb) && lb[skip] == 0 {
+			skip++
+		}
+		cw.readLeftover.Next(skip)
+		lb = cw.readLeftover.Bytes()
+
+		if i := bytes.IndexByte(lb, 0); i >= 0 {
+			// found end of packet, copy it (with its delimiter) to the read
+			// buffer and decode in place
+			if i+1 > len(b) {
+				cw.readLeftover.Next(i + 1)
+				return 0, ErrCobsTooMuchData
 			}
-			if lb[i] == 0 {
-				// found end of packet, copy to read buffer and process
-				_, _ = cw.readLeftover.Read(b[0:i])
-				return cobsDecodeInplace(b[0:i])
-			}
+			c := copy(b, cw.readLeftover.Next(i+1))
+			return cobsDecodeInplace(b[:c])
 		}
 
-		// write leftover bytes to beginning of buffer
-		bBuf := bytes.NewBuffer(b)
-		c, _ := bBuf.Write(cw.readLeftover.Bytes())
+		if len(lb) >= len(b) || len(lb) > cw.maxMessageLength {
+			// no end of packet in sight, drop what we have
+			cw.readLeftover.Reset()
+			return 0, ErrCobsTooMuchData
+		}
 
-		cur += c
-	}
-
-	foundStart := false
-
-	for {
-		c, err := cw.dev.Read(b[cur:])
+		c, err := cw.dev.Read(b)
 		if err != nil {
 			return 0, err
 		}
 
-		if c > 0 {
-			// look for zero in buffer
-			for i := 0; i < c; i++ {
-				if !foundStart {
-					if b[cur+i] == 0 {
-						continue
-					}
-					foundStart = true
-				}
-				if b[cur+i] == 0 {
-					// found end of packet, decode in place
-					// first save off extra bytes
-					cw.readLeftover.Write(b[cur+i+1 : cur+c])
-
-					return cobsDecodeInplace(b[0 : cur+i+1])
-				}
-			}
-		}
-
-		cur += c
-
-		if cur >= len(b) || cur > cw.maxMessageLength {
-			return 0, ErrCobsTooMuchData
-		}
+		cw.readLeftover.Write(b[:c])
 	}
 }
 
@@ -170,7 +170,7 @@ func (cw *CobsWrapper) Write(b []byte) (int, error) {
 		log.Println("SER TX RAW:", test.HexDump(b))
 	}
 
-	w := append([]byte{0}, cobs.Encode(b)...)
+	w := append([]byte{0}, cobsEncode(b)...)
 
 	if cw.debug >= 9 {
 		log.Println("SER TX COBS:", test.HexDump(w))
